@@ -148,6 +148,17 @@ def letterOp (alpha : String) (l i : Nat) (s : State) : Option Op :=
     | 8 => some (.remove 0)
     | 9 => some (.addHop (lastIdx s) { addr := 8, flags := [2] })
     | _ => none
+  else if alpha == "T" then   -- the property's own event list, anonymity as a toggle
+    match l with
+    | 0 => some (.send 1 (PA ++ [UInt8.ofNat i]))
+    | 1 => some (.send 2 (PB ++ [UInt8.ofNat i]))
+    | 2 => some (.setAnonymity PA (!(dictGet s.settings PA).getD false))
+    | 3 => some (.setTunnelCommunity true 1)
+    | 4 => some (.setTunnelCommunity false 1)
+    | 5 => some (.addHop (lastIdx s) { addr := 7, flags := [4] })
+    | 6 => some (.close 0)
+    | 7 => some (.remove 0)
+    | _ => none
   else if alpha == "B" then
     match l with
     | 0 => some (.send 1 (PA ++ [UInt8.ofNat i]))
@@ -198,7 +209,8 @@ def enumCmd (alpha : String) (k cap len : Nat) (pre : List Nat) : String :=
   if !ok || len < pre.length then "bad-op"
   else " ".intercalate (enumGo alpha k s last pos (len - pre.length) #[]).toList
 
-def alphaSize (alpha : String) : Nat := if alpha == "A" then 10 else if alpha == "B" then 12 else 0
+def alphaSize (alpha : String) : Nat :=
+  if alpha == "A" then 10 else if alpha == "B" then 12 else if alpha == "T" then 8 else 0
 
 def top (s : State) (toks : List String) : State × String :=
   match toks with
@@ -213,4 +225,20 @@ def top (s : State) (toks : List String) : State × String :=
     | _, _, _, _ => (s, "bad-op")
   | _ => stepLine s toks
 
-def main : IO Unit := Proto.run (init queueCap) top
+/-- like `Proto.loop`, but flushes after every reply so that the harness can converse interactively (`Driver.ask`) -/
+partial def loopFlush (h out : IO.FS.Stream) (st : State) : IO Unit := do
+  let line ← h.getLine
+  if line.isEmpty then
+    out.flush
+    return ()
+  let toks := Proto.tokens (Proto.stripNl line)
+  if toks.isEmpty then
+    loopFlush h out st
+  else
+    let (st', reply) := top st toks
+    out.putStrLn reply
+    out.flush
+    loopFlush h out st'
+
+def main : IO Unit := do
+  loopFlush (← IO.getStdin) (← IO.getStdout) (init queueCap)
